@@ -30,12 +30,17 @@ pub mod oracle {
     pub static mut FILLED: [usize; NS] = [0; NS];
     pub static mut DRAWS: [[u64; ND]; NS] = [[0; ND]; NS];
     /// largest range for which Lemire rejections are excluded (0 = no constraint)
-    pub static mut LEMIRE_MAX: u32 = 8;
+    pub static mut LEMIRE_MAX: u32 = 0;
     /// total number of oracle cells created (for evidence / cover)
     pub static mut NDRAWN: usize = 0;
+    /// set by native non-termination replays only: draw from a counter instead of `kani::any()`
+    pub static mut NATIVE_FALLBACK: bool = false;
 
     #[cfg(kani)]
     fn fresh() -> u64 {
+        if unsafe { NATIVE_FALLBACK } {
+            return unsafe { fallback() };
+        }
         let v: u64 = kani::any();
         let hi = (v >> 32) as u32;
         // unrolled (no loop: harness unwind bounds must not depend on the model)
@@ -54,8 +59,14 @@ pub mod oracle {
         lemire!(6);
         lemire!(7);
         lemire!(8);
-        kani::assume(v != 0);
         v
+    }
+
+    unsafe fn fallback() -> u64 {
+        let mut z = (NDRAWN as u64).wrapping_add(0x9e3779b97f4a7c15);
+        z = (z ^ (z >> 30)).wrapping_mul(0xbf58476d1ce4e5b9);
+        z = (z ^ (z >> 27)).wrapping_mul(0x94d049bb133111eb);
+        (z ^ (z >> 31)) | 1
     }
 
     #[cfg(not(kani))]
@@ -102,6 +113,11 @@ pub mod oracle {
     /// value of draw `ctr` of stream `id`
     pub fn draw(id: usize, ctr: usize) -> u64 {
         unsafe {
+            if NATIVE_FALLBACK {
+                // native non-termination replay: an endless deterministic stream, no table
+                NDRAWN += 1;
+                return fallback();
+            }
             assert!(id < NUSED, "oracle model: bad stream id");
             assert!(ctr < ND, "oracle model: too many draws for this harness");
             // cells are created strictly in order (no holes, no loop)
